@@ -386,7 +386,7 @@ func cmdCheck(prop string, tier string) int {
 		fmt.Printf("%-44s paths=%d %v decisions=%d queries=%d solver=%.1fs wall=%.1fs\n", h.Name, s.Paths, s.ByStatus, s.Decisions, s.Queries, s.SolverSec, s.WallSec)
 		for _, id := range sortedAssertIDs(s) {
 			a := s.Asserts[id]
-			fmt.Printf("    assert %-40s checked=%d discharged=%d concrete-ok=%d violated=%d unknown=%d\n", id, a.Checked, a.Discharged, a.ConcreteOK, a.Violated, a.Unknown)
+			fmt.Printf("    assert %-44s checked=%d discharged=%d concrete-ok=%d violated=%d unknown=%d hunt-unknown=%d\n", id, a.Checked, a.Discharged, a.ConcreteOK, a.Violated, a.Unknown, a.HuntUnknown)
 		}
 		for _, k := range explore.SortedKeys(s.Unsupported) {
 			inconclusive = append(inconclusive, fmt.Sprintf("%s: unsupported: %s (x%d)", h.Name, k, s.Unsupported[k]))
@@ -539,7 +539,7 @@ func writeEvidence(prop, tier string, seed int, reps []*harnessReport, known, in
 			obligations += a.Checked
 			discharged += a.Discharged + a.ConcreteOK
 			samples = append(samples, map[string]interface{}{"harness": r.H.Name, "assert": id, "paths_checked": a.Checked,
-				"solver_unsat": a.Discharged, "concretely_true": a.ConcreteOK, "violated": a.Violated, "unknown": a.Unknown})
+				"solver_unsat": a.Discharged, "concretely_true": a.ConcreteOK, "violated": a.Violated, "unknown": a.Unknown, "bug_hunting_unknown": a.HuntUnknown})
 		}
 	}
 	if len(samples) == 0 {
@@ -634,7 +634,7 @@ func cmdRun(args []string) int {
 	fmt.Printf("paths=%d %v decisions=%d queries=%d solver=%.2fs wall=%.2fs steps=%d truncated=%q\n", s.Paths, s.ByStatus, s.Decisions, s.Queries, s.SolverSec, s.WallSec, s.Steps, s.Truncated)
 	for _, id := range sortedAssertIDs(s) {
 		a := s.Asserts[id]
-		fmt.Printf("  assert %-40s checked=%d discharged=%d concrete-ok=%d violated=%d unknown=%d\n", id, a.Checked, a.Discharged, a.ConcreteOK, a.Violated, a.Unknown)
+		fmt.Printf("  assert %-44s checked=%d discharged=%d concrete-ok=%d violated=%d unknown=%d hunt-unknown=%d\n", id, a.Checked, a.Discharged, a.ConcreteOK, a.Violated, a.Unknown, a.HuntUnknown)
 	}
 	for _, k := range explore.SortedKeys(s.Unsupported) {
 		fmt.Printf("  UNSUPPORTED x%d: %s\n", s.Unsupported[k], k)
